@@ -77,7 +77,19 @@ def c_rational(k, n, d):
 EPOCH = datetime.datetime(1970, 1, 1)
 
 
-def check_tuple(k, n, d, s, ps, res, python_api=True):
+def _poison(how):
+    import time
+    import digital_rf
+    try:
+        if how == "convert":
+            digital_rf.get_unix_time(10 ** 17, 1, 1)
+        elif how == "gmtime":
+            time.gmtime(10 ** 17)
+    except BaseException:
+        pass
+
+
+def check_tuple(k, n, d, s, ps, res, python_api=True, before=None):
     """All oracles for one tuple; returns number of evaluations."""
     es, rem = divmod(k * d, n)
     eps = rem * PS // n
@@ -92,6 +104,8 @@ def check_tuple(k, n, d, s, ps, res, python_api=True):
         import digital_rf
 
         try:
+            if before:
+                _poison(before)
             pdt, pps = digital_rf.get_unix_time(k, n, d)
             if pdt != dt.replace(microsecond=eps // 10 ** 6) or pps != eps:
                 res.fail("python-get_unix_time", "k=%d n=%d d=%d got (%s,%d) expected (%s,%d)" % (k, n, d, pdt, pps, dt, eps))
@@ -182,7 +196,9 @@ def _cases(draw):
         s, ps = min(YEAR9999 - 1, tps // PS), tps % PS
     else:
         ps = draw(st.integers(0, 999)) * 10 ** 9
-    return {"k": k, "n": n, "d": d, "s": s, "ps": ps}
+    # what this thread did just before the conversion: nothing / a conversion of an index whose time no calendar can express
+    # (it fails) / a failing calendar call of the C library through Python itself.  A pure function owes the same result
+    return {"k": k, "n": n, "d": d, "s": s, "ps": ps, "before": draw(st.sampled_from([None, None, None, "convert", "gmtime"]))}
 
 
 def strategy(tier):
@@ -362,7 +378,9 @@ def run_case(case):
         _run_bignum(case, res)
         return res
     k, n, d = case["k"], case["n"], case["d"]
-    check_tuple(k, n, d, case["s"], case["ps"], res)
+    check_tuple(k, n, d, case["s"], case["ps"], res, before=case.get("before"))
+    if case.get("before"):
+        res.cls("after-a-failed-conversion:" + case["before"])
     res.nontrivial = nontrivial(k, n, d)
     if k >= 1 << 40:
         res.cls("bigindex")
